@@ -17,7 +17,8 @@ def Row.appends (r : Row) : Bool :=
 /-- what a row must satisfy in the current left state -/
 def RowPre (P : Params) (X : SParams) (s₁ : St) (r : Row) : Prop :=
   EdgesPre P X s₁ (dropTrivial r.edges) ∧ (∀ d ∈ r.dests, d ∉ X.F) ∧ P.ρ r.nodeUuid = r.nodeUuid ∧ RV s₁ ∧
-  (X.nmAll = true ∨ (r.nodeUuid = [] ∧ r.nodeName = []))
+  (X.nmAll = true ∨ (r.nodeUuid = [] ∧ r.nodeName = [])) ∧
+  (P.op = true → r.type ≠ "loose_exit".toList)
 
 theorem Eff.of_spost {s₁ s₂ t₁ t₂ : St} (h : SPost P X s₁ s₂ ⟨⟩ t₁ ⟨⟩ t₂) : Eff P s₁ t₁ :=
   Eff.of_blkEq h.2.2.2 h.2.1.2.1
@@ -26,13 +27,17 @@ theorem Eff.of_spost {s₁ s₂ t₁ t₂ : St} (h : SPost P X s₁ s₂ ⟨⟩ 
 theorem parseRow_rel (ok : P.Ok) {s₁ s₂ : St} (h : Sim P X s₁ s₂) (r0 : Row) (hpre : RowPre P X s₁ r0) :
     rwp (parseRow r0) (parseRow r0) s₁ s₂ (fun _ t₁ _ t₂ =>
       Sim P X t₁ t₂ ∧ t₁.stack = s₁.stack ∧ Eff P s₁ t₁ ∧ (r0.appends = true → MR P t₁)) := by
-  obtain ⟨hed, hds, hgiv, hrv, hnmk⟩ := hpre
+  obtain ⟨hed, hds, hgiv, hrv, hnmk, hnl⟩ := hpre
   unfold parseRow
   simp only []
   refine rwp_ite (fun hx => ?_) fun h1 => ?_
   · have : rwp ((dropTrivial r0.edges).forM (addRowEdge (if r0.type = "hard_exit".toList then Dest.hard else Dest.none)))
         ((dropTrivial r0.edges).forM (addRowEdge (rnDest P.ρ (if r0.type = "hard_exit".toList then Dest.hard else Dest.none))))
-        s₁ s₂ (SPost P X s₁ s₂) := edges_rel ok h _ _ hed.1 hed.2
+        s₁ s₂ (SPost P X s₁ s₂) := edges_rel ok h _ _ hed.1 hed.2 (by
+          intro hop
+          rcases hx with hx | hx
+          · rw [if_pos hx]; intro e'; cases e'
+          · exact absurd hx (hnl hop))
     have e : rnDest P.ρ (if r0.type = "hard_exit".toList then Dest.hard else Dest.none) =
         (if r0.type = "hard_exit".toList then Dest.hard else Dest.none) := by split <;> rfl
     rw [e] at this
